@@ -450,6 +450,7 @@ Section MovingEv.
       ascending (rn (libref (db s))) Fnew /\ rn (libref (db s)) <= rn (libref (db s')) /\
       libref (db s') = last (map bref Fnew) (libref (db s)) /\
       (Fin <> [] -> undone = [] \/ kept <> []) /\
+      (last_sent s' = last_sent s -> undone = [] /\ redone = [] /\ fresh = [] /\ stalled = [] /\ Fnew = []) /\
       StepKind s s' Fin Fnew S S' b.
 
   Lemma late_evs_nil b L' : late_evs b L' (if f_irr (c_filter cfg) then [] else []) [] = [].
@@ -463,7 +464,7 @@ Section MovingEv.
     rewrite late_evs_nil, app_nil_r. cbn [undo_evs new_evs batch_events fresh_events length map app rev].
     split; [reflexivity|]. split; [reflexivity|]. split; [reflexivity|]. split; [reflexivity|].
     split; [constructor|]. rewrite app_nil_r. split; [exact HI|]. split; [exact HX|]. split; [exact I|]. split; [rewrite Hl; lia|].
-    split; [exact Hl|]. split; [left; reflexivity | exact Hk].
+    split; [exact Hl|]. split; [left; reflexivity|]. split; [auto | exact Hk].
   Qed.
 
   (* heights ascend along a parent-linked run of blocks of the universe *)
@@ -607,6 +608,12 @@ Section MovingEv.
     split.
     { intros HF. right. intros E. apply (f_equal (@rev block)) in E. rewrite rev_involutive in E. cbn [rev] in E.
       apply app_eq_nil in E as [E _]. contradiction. }
+    split.
+    { intros E. exfalso. rewrite Hls' in E. symmetry in E.
+      pose proof (i_head _ _ _ _ _ _ HI) as Hh. rewrite E in Hh. destruct Hh as (_ & p & Hcp & _).
+      destruct p as [|e0 p0 _] using rev_ind.
+      - apply chain_nil_inv in Hcp. contradiction.
+      - destruct (chain_top _ _ _ _ _ Hcp) as [Hf0 _]. apply Hk. apply find_is_some_in. eauto. }
     apply SkTrig; try assumption.
     - exists pP. exact Hc.
     - rewrite map_app, app_assoc, rev_app_distr. cbn [map rev app eb en]. eauto.
@@ -675,6 +682,7 @@ Section MovingEv.
     split; [rewrite Hdbs2; cbn [new_db libref]; lia|].
     split; [rewrite Hdbs2; cbn [new_db libref map last]; rewrite Hbr; exact Hflast|].
     split; [left; reflexivity|].
+    split; [rewrite Hlast2; intros E; rewrite Els in E; discriminate|].
     apply SkRoot; try assumption; try reflexivity.
     - rewrite Hdbs2. cbn [new_db store]. apply keys_snoc.
     - rewrite Hdbs2. reflexivity.
@@ -823,7 +831,7 @@ Section MovingEv.
       apply_all (ri r0) S evs = Some S' /\
       c04m_step r0 (f_irr (c_filter cfg)) (lib_received r0 seen) (libref (db s)) S b evs (libref (db s')) S'.
   Proof.
-    intros (s' & Fnew & S' & kept & undone & redone & fresh & stalled & Hres & HS & HS' & Happ & Hab & HI' & HX' & Hasc & Hmono & Hlast & Hjk & Hkind) Hlr.
+    intros (s' & Fnew & S' & kept & undone & redone & fresh & stalled & Hres & HS & HS' & Happ & Hab & HI' & HX' & Hasc & Hmono & Hlast & Hjk & _ & Hkind) Hlr.
     assert (Hj : junction_of r0 (lib_stored r0 s) undone kept = junction_of r0 (lib_received r0 seen) undone kept).
     { destruct Fin as [|x F]; [rewrite (Hlr eq_refl); reflexivity|].
       destruct Hjk as [-> | Hk]; [discriminate | reflexivity|]. unfold junction_of.
